@@ -489,3 +489,59 @@ def g_case(pages, ops, res, cont=False):
     tr = '[' + '; '.join('(%s, %s)' % (g_outs(rq, ret), g_obs(ob, cont)) for rq, ret, ob in res['trace']) + ']'
     return '%s %s [%s] (%s, %s) %s' % ('check_case_cont' if cont else 'check_case', g_server(pages), '; '.join(g_op(o) for o in ops),
                                        g_outs(res['init'][0]), g_obs(res['init'][1], cont), tr)
+
+
+# ---------------------------------------------------------------- callback-driven paging (documented async pattern)
+class PagedResultHandler(object):
+    """the example of the driver's paging documentation"""
+
+    def __init__(self, future):
+        self.future, self.rows, self.error, self.finished, self.calls = future, [], None, False, 0
+        future.add_callbacks(callback=self.handle_page, errback=self.handle_error)
+
+    def handle_page(self, rows):
+        self.calls += 1
+        self.rows.extend(val(r) for r in rows)
+        if self.future.has_more_pages:
+            self.future.start_fetching_next_page()
+        else:
+            self.finished = True
+
+    def handle_error(self, exc):
+        self.error = type(exc).__name__
+
+
+def run_async(script, early, mode=None):
+    """early: the answer to the first request has been processed before add_callbacks() is reached.
+    -> dict(sent, rows, finished, error)"""
+    from vf.impl import import_cluster
+    cl = import_cluster()
+    from cassandra.protocol import QueryMessage
+    from cassandra.query import SimpleStatement
+    mode = dict(default_mode(script), **(mode or {}))
+    eager = False      # the handler runs in the reactor thread: an answer is never processed before the handler returns
+    server = Server(script, eager, None, mode)
+    session = FakeSession(server)
+    plan = None
+    query = SimpleStatement('SELECT v FROM t', is_idempotent=True)
+    if mode['spec']:
+        from cassandra.policies import ConstantSpeculativeExecutionPolicy
+        plan = ConstantSpeculativeExecutionPolicy(0, 1000).new_plan(None, query)
+    msg = QueryMessage('SELECT v FROM t', 1, serial_consistency_level=8 if mode['serial'] else None, fetch_size=2)
+    rf = cl.ResponseFuture(session, msg, query, None, speculative_execution_plan=plan)
+    server.rf = rf
+    rf._event = FakeEvent(server)
+    rf.send_request()
+    if early and not eager:
+        server.deliver_one()                     # the first answer is processed before the application registers callbacks
+    h = PagedResultHandler(rf)
+    n = 0
+    while server.pending and n < 200:            # the reactor thread delivers the answers
+        server.deliver_one()
+        n += 1
+    return {'sent': [state_id(x) for x in server.sent], 'rows': h.rows, 'finished': h.finished, 'error': h.error, 'bogus': len(server.bogus)}
+
+
+def g_async(script, early, res):
+    return 'check_async %s %s %s %s %s' % ('true' if early else 'false', g_server(script), g_outs(res['sent']), zlist(res['rows']),
+                                           'true' if res['finished'] else 'false')
